@@ -11,13 +11,13 @@ TB = ("trusted base: TLC 1.8, the Go harness in /verif/harness (gate scheduler, 
       "transaction atomicity/isolation as documented (their adapters are checked by C11); TiKV is client-go's in-process mock cluster")
 
 CHECKS = {
- "C01": dict(technique="TLA+ spec (KubeBrain.tla) model-checked by TLC; TLC-generated schedules replayed gate-by-gate on the real backend; recorded traces validated by TLC against TraceProps.tla monitors",
+ "C01": dict(technique="TLA+ spec (KubeBrain.tla) model-checked by TLC; TLC-generated schedules replayed gate-by-gate on the real backend; recorded traces validated by TLC against TraceProps.tla monitors; StorageRace.tla (atomic commit of parallel conditional batches) model-checked by TLC, every case run with real parallelism on the bare adapters and judged serialisable by TLC",
    text="Exhaustive TLC check of IndexAgrees/Chain/OneWinner/FailedLeavesKey/FailedOnlyIfDiffered for 2-3 writers on 1-2 keys from every initial key state; thousands of TLC-generated interleavings are forced onto the real backend (memkv, Badger, TiKV mock, metrics wrapper) through engine-call gates and verif yield points, plus free-running concurrent runs; every recorded execution is judged by the trace monitors (WriteCondition evaluates the operation's condition on the engine state reconstructed at the commit's linearization point).",
    ref="6/C01"),
- "C02": dict(technique="TLA+ spec model-checked by TLC; replay of TLC schedules on the real backend; TLC trace validation (UniqueRevision, RealTimeOrder, PerKeyIncreasing, HeaderCoversData)",
+ "C02": dict(technique="TLA+ spec model-checked by TLC; replay of TLC schedules on the real backend; TLC trace validation (UniqueRevision, RealTimeOrder, PerKeyIncreasing, HeaderCoversData); tso.Commit modelled in two steps (TsoDetail) and replayed through a yield point inside it; reader processes (List/Get in flight) replayed and judged",
    text="TLC checks uniqueness, real-time order, per-key monotonicity and header>=data on the spec for all interleavings of the bounded model; the same monitors are evaluated by TLC on every trace recorded from gated replays and free-running concurrent runs of the real code.",
    ref="6/C02"),
- "C04": dict(technique="TLA+ spec model-checked by TLC (safety NoOvertake/Resolved + liveness <>[](committed=dealt) under weak fairness); replay of TLC schedules with lagging sequencer on the real backend; TLC trace validation",
+ "C04": dict(technique="TLA+ spec model-checked by TLC (safety NoOvertake/Resolved + liveness <>[](committed=dealt) under weak fairness); replay of TLC schedules with lagging sequencer on the real backend; TLC trace validation; schedules with storage errors / unknown outcomes on any commit incl. the repair write; reader processes of the model (List/Get in flight next to writers and a stepwise compactor) replayed",
    text="TLC proves on the bounded model that the committed revision never reaches an unfinished write and always catches up (liveness under WF), for every outcome incl. future expectations; schedules in which later-allocated writes finish first are replayed on the real backend with the sequencer as a gated process; monitors NoOvertake/CommittedWasReported/Resolved judge every recorded trace.",
    ref="6/C04"),
 }
@@ -36,15 +36,15 @@ CHECKS.update({
    ref="6/C13"),
 })
 CHECKS.update({
- "C05": dict(technique="TLA+ spec (KubeBrain.tla: sequencer poll/cache-insert/flush, hub, watcher subscribe/cache-read/decide/forward/close) model-checked by TLC; TLC schedules replayed through verif yield points on the real backend incl. real-capacity buffer overflow; TLC trace validation of every delivery",
+ "C05": dict(technique="TLA+ spec (KubeBrain.tla: sequencer poll/cache-insert/flush, hub, watcher subscribe/cache-read/decide/forward/close) model-checked by TLC; TLC schedules replayed through verif yield points on the real backend incl. real-capacity buffer overflow; TLC trace validation of every delivery; Ring.tla (event cache with revision gaps through wrap-around) model-checked, every fill executed on the real Ring and every lookup judged by TLC (TraceRing.tla)",
    text="TLC checks DeliveredIsPrefix / DeliveredIsInfix / RefusedDeliversNothing / CompleteAtQuiescence for all interleavings of registration with writes, all start revisions relative to the cache window (zero, below, inside, newest, above), cache sizes 1-2 (wrap) and subscriber buffers 1-2 with a consumer that may stall. Thousands of generated schedules are forced on the real Watch/hub/sequencer code through the yield points (memkv, TiKV mock, Badger); overflow of the real 10000-batch buffer is reached by scaling with empty batches. Every Recv/Closed is judged by the trace monitors (ordered, from start, prefix, matches a committed write, no skipped event, nothing after close, complete at quiescence).",
    ref="6/C05"),
- "C06": dict(technique="TLA+ invariant ListWatchAgree model-checked by TLC; replay of TLC schedules with list-then-watch clients on the real backend; TLC trace validation (ListWatchAgree: list result + delivered events = snapshot rebuilt from engine commits)",
+ "C06": dict(technique="TLA+ invariant ListWatchAgree model-checked by TLC; replay of TLC schedules with list-then-watch clients on the real backend; TLC trace validation (ListWatchAgree: list result + delivered events = snapshot rebuilt from engine commits); the list half as a reader process of the model (RInvoke/RCheck/RIter) with writes and compaction deletions in flight, replayed gate by gate",
    text="A client that lists its prefix (served at R) and watches from R+1 is part of the model; TLC checks for all interleavings with writers that list result plus delivered events equals the snapshot at the last delivered revision. The same schedules are replayed on the real backend; the trace monitor recomputes the equation at every delivery against the history rebuilt from logged engine commits, and ReadIsSnapshot/NoSkip/DeliveredMatchesWrite cross-check read path and event path against the same history.",
    ref="6/C06"),
 })
 CHECKS.update({
- "C07": dict(technique="TLA+ transcription of the compaction scan (Scanner.tla) model-checked by TLC for every crash point and every failing deletion (CompactionSafe); TLC-generated histories with interrupted/failing compactions replayed on 4 engines with faults injected at the storage interface; free-running writers+compactor+readers; TLC trace validation at every logged delete",
+ "C07": dict(technique="TLA+ transcription of the compaction scan (Scanner.tla) model-checked by TLC for every crash point and every failing deletion (CompactionSafe); TLC-generated histories with interrupted/failing compactions replayed on 4 engines with faults injected at the storage interface; free-running writers+compactor+readers; TLC trace validation at every logged delete; the compactor as a process of KubeBrain.tla taking one step per engine deletion (ok / error / lost compare / worker dies) racing writers: model-checked, schedules replayed gate by gate on memkv, Badger, TiKV mock",
    text="TLC checks in every reachable state of the bounded sequential model that a compaction at any R, interrupted after any number of deletions or with any single deletion failing (certain error or failed compare), leaves all reads at R' >= R unchanged and every key writable. TLC-generated histories containing such interrupted/failing compactions (followed by more writes) are executed on memkv, Badger, TiKV mock and the metrics wrapper; the monitor CompactionPreservesReads is evaluated at every logged Del/DelCurrent against the reconstructed store, and reads at every revision >= floor are compared with the reference. Free-running runs add real concurrency between writers, the compactor and readers.",
    ref="6/C07"),
 })
